@@ -48,6 +48,7 @@ class Check:
         self.quiet = quiet
         self.log_lines = []
         self.floor_failures = []
+        self.structural_rules = set()   # rules decided on the source itself, not on abstract values
 
     # ------------------------------------------------------------ recording
     def log(self, msg):
